@@ -285,7 +285,7 @@ def body(ctx):
 
 
 def run(ctx):
-    hyp_run(ctx, 'c03.machine', case_strategy(ctx.tier == 'thorough'), body(ctx), ctx.pick(200, 4000))
+    hyp_run(ctx, 'c03.machine', case_strategy(ctx.tier == 'thorough'), body(ctx), ctx.pick(200, 15000))
 
 
 def replay(ctx, check, case):
